@@ -1,10 +1,10 @@
-import Pcore.Model.DescribeText
+import Pcore.Model.DescribeCallable
 set_option linter.unusedSimpArgs false
 /-!
   The argument-error description of a call that fits none of a set of SIGNATURES (property C19):
   `describeSignatures`, `describeSignatureArguments`, `describeSignatureBlock` of /repo/internal/typemismatchdescriber.go — the
   structure of what `px.DescribeSignatures(signatures, argsTuple, block)` prints, for signatures whose parameter types are lattice
-  terms and a call WITHOUT a block (`block == nil`: what the harness passes and what a Go caller without a lambda passes).
+  terms, without a block (`block == nil`) or with one (`blk = some signature of the lambda`).
   Core Lean only.
 
   Go → Lean
@@ -13,7 +13,8 @@ set_option linter.unusedSimpArgs false
     describeSignatureArguments   → `sigArguments` (`aSize` stays nil for an argument type that is neither Tuple nor Array: the nil
         *IntegerType reaches IntegerType.IsAssignable, which dereferences it: `SFault.nilSize`; `eTypes[ex]` with `eLast = -1`:
         `SFault.paramIndex`; `eNames[ex]`: `SFault.nameIndex`; the first parameter whose description is not empty ends the loop)
-    describeSignatureBlock       → `sigBlock` (aBlock == nil: a block type that does not accept Undef is a missing required block)
+    describeSignatureBlock       → `sigBlock` (aBlock == nil: a block type that does not accept Undef is a missing required block; a block
+        given: no block type → unexpectedBlock, else `describe(eBlock, aBlock.Signature(), path + block 'block')` = `describeBlk`)
     describeSignatures           → `describeSignatures`: argument errors per signature; block errors unless every signature has argument
         errors (all have block errors: they replace the argument errors; some: they fill the signatures without argument errors);
         with more than one signature in error and ONE argument that is a Struct, only the single signature whose first parameter is
@@ -23,17 +24,10 @@ set_option linter.unusedSimpArgs false
 namespace Pcore.Desc
 open Pcore.Lat
 
-/-- what a call without a block needs to know of `signature.BlockType()` -/
-inductive BlockReq where
-  | none        -- BlockType() == nil
-  | required    -- a block type that does not accept Undef
-  | optional    -- a block type that accepts Undef (Optional[Callable[…]])
-  deriving DecidableEq, Repr, Inhabited
-
 structure Sig where
   params : Option (List Ty × Rng)     -- ParametersType(): the types and the size of the parameter tuple
   names : List String                 -- ParameterNames()
-  block : BlockReq
+  block : Option Blk                  -- BlockType(): Callable[…] or Optional[Callable[…]]
   deriving Repr, Inhabited
 
 inductive SFault where
@@ -90,11 +84,17 @@ def sigArguments (sg : Sig) (args : Ty) (path : Path) : ARes :=
       if eSize.sub aSize then sigArgLoop cfg sfh eTypes sg.names path aTypes 0
       else .ok [.countMismatch path eSize aSize]
 
-/-- `describeSignatureBlock(signature, nil, path)` -/
-def sigBlock (sg : Sig) (path : Path) : List Mismatch :=
-  match sg.block with
-  | .required => [.missingRequiredBlock path]
-  | _ => []
+/-- `describeSignatureBlock(signature, aBlock, path)` -/
+def sigBlock (sg : Sig) (blk : Option CT) (path : Path) : Res :=
+  match blk with
+  | none =>
+      (match sg.block with
+       | some (false, _) => .ok [.missingRequiredBlock path]        -- a block type that does not accept Undef
+       | _ => .ok [])
+  | some ab =>
+      (match sg.block with
+       | none => .ok [.unexpectedBlock path]
+       | some eb => describeBlk cfg sfh eb ab (path ++ [⟨.block, "block"⟩]))
 
 def sigPath (ix : Nat) : Path := [PE.nat .signature ix]
 
@@ -109,9 +109,15 @@ def sigAllArgs (args : Ty) : List Sig → Nat → Except SFault (List (List Mism
       | .error k => .error k
       | .ok more => .ok (ae :: more)
 
-def sigAllBlocks : List Sig → Nat → List (List Mismatch)
-  | [], _ => []
-  | sg :: rest, ix => sigBlock sg (sigPath ix) :: sigAllBlocks rest (ix + 1)
+def sigAllBlocks (blk : Option CT) : List Sig → Nat → Except SFault (List (List Mismatch))
+  | [], _ => .ok []
+  | sg :: rest, ix =>
+    match sigBlock cfg sfh sg blk (sigPath ix) with
+    | .fault k => .error (.desc k)
+    | .ok be =>
+      match sigAllBlocks blk rest (ix + 1) with
+      | .error k => .error k
+      | .ok more => .ok (be :: more)
 
 /-- "the argsTuple is of size one and the argument is a Struct" -/
 def argIsOneStruct : Ty → Bool
@@ -136,9 +142,7 @@ def structSig : List (Sig × List Mismatch) → Nat → Option Nat → Option (O
 
 /-- the block errors: skipped when every signature has argument errors; they replace the argument errors when every signature has
     one, else they fill in for the signatures without argument errors -/
-def sigWithBlocks (sigs : List Sig) (argErrs : List (List Mismatch)) : List (List Mismatch) :=
-  if argErrs.all (fun ae => !ae.isEmpty) then argErrs else
-  let blockArrays := sigAllBlocks sigs 0
+def sigWithBlocks (blockArrays argErrs : List (List Mismatch)) : List (List Mismatch) :=
   let bc := (blockArrays.filter fun ae => !ae.isEmpty).length
   if bc == blockArrays.length then blockArrays
   else if bc > 0 then (argErrs.zip blockArrays).map fun (ea, ba) => if ea.isEmpty then ba else ea
@@ -159,14 +163,18 @@ def sigFinish (errorArrays : List (List Mismatch)) : SRes :=
   | .ok [e] => .single e
   | .ok _ => .listing (errorArrays.map fun ea => ea.map fun e => chopPath e 0)
 
-/-- `describeSignatures(signatures, argsTuple, nil)` -/
-def describeSignatures (sigs : List Sig) (args : Ty) : SRes :=
+/-- `describeSignatures(signatures, argsTuple, block)` -/
+def describeSignatures (sigs : List Sig) (args : Ty) (blk : Option CT) : SRes :=
   match sigAllArgs cfg sfh args sigs 0 with
   | .error k => .fault k
   | .ok argErrs =>
     let ne := (argErrs.filter fun ae => !ae.isEmpty).length
-    let errorArrays := sigWithBlocks sigs argErrs
-    if errorArrays.isEmpty then .empty else sigFinish (sigStrip sigs args ne errorArrays)
+    -- "skip block checks if all signatures have argument errors"
+    match (if argErrs.all (fun ae => !ae.isEmpty) then Except.ok argErrs
+           else (sigAllBlocks cfg sfh blk sigs 0).map fun blockArrays => sigWithBlocks blockArrays argErrs) with
+    | .error k => .fault k
+    | .ok errorArrays =>
+      if errorArrays.isEmpty then .empty else sigFinish (sigStrip sigs args ne errorArrays)
 
 end
 end Pcore.Desc
